@@ -365,7 +365,7 @@ func expectRet(kind string, d sb.ValDesc) string {
 }
 
 var c17Ints = []int64{0, 1, -1, 127, 128, -128, -129, 255, 256, 32767, 32768, 65535, 65536, math.MaxInt32, math.MaxInt32 + 1, math.MinInt32, math.MinInt32 - 1, math.MaxUint32, math.MaxUint32 + 1, math.MaxInt64, math.MinInt64}
-var c17Floats = []float64{0, math.Copysign(0, -1), 1.5, -2.25, math.SmallestNonzeroFloat64, 4.9e-324 * 3, math.MaxFloat64, 1e-40, 16777217, 0.1}
+var c17Floats = []float64{0, math.Copysign(0, -1), 1.5, -2.25, math.SmallestNonzeroFloat64, 4.9e-324 * 3, math.MaxFloat64, 1e-40, 16777217, 0.1, math.Inf(1), math.Inf(-1), math.MaxFloat32, -math.MaxFloat32}
 var c17Strings = []string{"", "a", "héllo", "\x00\xff\xfe", strings.Repeat("x", 65536), "12", "1.5"}
 
 func poolArg(kind string, i int) argVal {
